@@ -116,6 +116,11 @@ func (c *TableWriter) WriteRun(entries iter.Seq[kv.Entry], targetSize uint64) ([
 		for buffer.size < int(targetSize) {
 			entry, ok := next()
 			if !ok {
+				// Nothing is buffered when the input was empty or the previous
+				// chunk took every remaining entry: there is no table to write.
+				if len(buffer.entries) == 0 {
+					return tables, nil
+				}
 				t, err := c.Write(buffer.all())
 				if err != nil {
 					return nil, err
